@@ -40,7 +40,7 @@ def run(ctx, rep):
     import_pvl()
     rep.rule = ("(1) char_allowed() of the 5 grammars evaluated on all 1 114 112 code points, logged as maximal ranges, every code "
                 "point of every range checked by TLC against Allowed(d, c) (spec/PvlValues.tla); (2) TLC builds texts with a code "
-                "point at 11 kinds of position (spec/MC_Chars.tla) and gives the reference outcome; real loads are judged by "
+                "point at 17 kinds of position (spec/MC_Chars.tla) and gives the reference outcome; real loads are judged by "
                 "spec/Trace_Chars.tla (LexerError iff disallowed before END, pos/lineno/colno consistent). distinct = (dialect, "
                 "range) or (dialect, template, code point); non-trivial = code point outside printable ASCII")
     # (1) tables
